@@ -15,6 +15,7 @@ def payloads(C):
     sch = C.schema
     C.slices = [templates.slice_(sn, i) for i in range(templates.nslices(sn))]
     C.slices.append(Slice.empty)
+    C.slices.extend(templates.late_slices(sn))
     nodes = []
     for expr in ('p("n")', 'p()', 'hr()', 'img()', 'br()', 'h1("h")', 'pre("c")', 'bq(p("q"))', 'ul(li(p("i")))',
                  'fa("x")', 'blk(fa(), fb())', 'iso(p("s"))', 'title("t")', 'body(p("y"))', 'plain("z")', 'pic()',
